@@ -343,3 +343,73 @@ func keyTermsAtCall(p *core.Program, call ssa.CallInstruction, callee *ssa.Funct
 	}
 	return out
 }
+
+// successImplies: on every committing return of the handler the effects selected by filter have been performed
+// (checked in the function that contains the effect site and along the calls from the handler down to it).
+func successImplies(r *core.Run, rule string, h *core.Handler, what string, filter core.OpFilter) {
+	p := r.Prog
+	var walk func(fn *ssa.Function, depth int) (found bool, bad string)
+	walk = func(fn *ssa.Function, depth int) (bool, string) {
+		if depth > 4 {
+			return false, ""
+		}
+		found := false
+		for _, e := range p.Effects(fn) {
+			match := false
+			if filter.Store != nil {
+				for _, o := range e.Store {
+					if filter.Store(o) {
+						match = true
+					}
+				}
+			}
+			if filter.Bank != nil {
+				for _, b := range e.Bank {
+					if filter.Bank(b) {
+						match = true
+					}
+				}
+			}
+			if !match {
+				continue
+			}
+			found = true
+			if ret := p.BypassExists(fn, fn.Blocks[0].Instrs[0], e.Instr, fn != h.Fn && errResultIdx(fn) < 0); ret != nil {
+				// maybe another matching effect covers the other paths: require each committing return to pass SOME matching effect
+				continue
+			}
+			if !e.Direct {
+				for _, c := range e.Callees {
+					if f2, bad := walk(c, depth+1); f2 && bad != "" {
+						return true, bad
+					}
+				}
+			}
+			return true, ""
+		}
+		if found {
+			return true, core.FnName(fn)
+		}
+		return false, ""
+	}
+	found, bad := walk(h.Fn, 0)
+	construct := h.Key() + ":success-implies:" + what
+	switch {
+	case !found:
+		r.Violation(rule, construct, r.Prog.Pos(h.Fn.Pos()), "the handler never performs "+what)
+	case bad != "":
+		r.Violation(rule, construct, r.Prog.Pos(h.Fn.Pos()), "a successful return of "+bad+" can be reached without having performed "+what+" (early return / skipped branch): the message reports success but its effect did not happen")
+	default:
+		r.Ok(rule, construct, r.Prog.Pos(h.Fn.Pos()), "every committing return has performed "+what)
+	}
+}
+
+func errResultIdx(fn *ssa.Function) int {
+	res := fn.Signature.Results()
+	for i := res.Len() - 1; i >= 0; i-- {
+		if res.At(i).Type().String() == "error" {
+			return i
+		}
+	}
+	return -1
+}
